@@ -34,6 +34,7 @@ def rules(ctx):
     fr.r_relink(ctx)
     fr.r_push_sorted(ctx)
     fr.r_batch_sets(ctx)
+    fr.r_full_scan(ctx)
     fr.r_merge(ctx)
     fr.r_partition(ctx)
     fr.r_fresh(ctx)
